@@ -192,10 +192,11 @@ def r3_r4_structure(ctx):
             s0, s1 = diff_sign(a0, "east", "force_east"), diff_sign(a1, "north", "force_north")
 
             def rows(a, nm):
-                return any(x[0] == "call" and x[1] == ("attr", ("param", nm), "reshape") and x[2] and x[2][0][0] == "tuple" and len(x[2][0][1]) == 2 and x[2][0][1][1] == const(1) for x in walk(a))
+                return any(Q.reshape_of(x) is not None and Q.reshape_of(x)[0] == ("param", nm) and Q.reshape_of(x)[1][0] == "tuple" and len(Q.reshape_of(x)[1][1]) == 2 and Q.reshape_of(x)[1][1][1] == const(1)
+                           for x in walk(a) if isinstance(x, tuple) and x and x[0] == "call")
 
             def cols_wrong(a, nm):
-                return any(x[0] == "call" and x[1][0] == "attr" and x[1][2] == "reshape" and ("param", nm) in Q.leaves(x[1][1]) for x in walk(a))
+                return any(Q.reshape_of(x) is not None and ("param", nm) in Q.leaves(Q.reshape_of(x)[0]) for x in walk(a) if isinstance(x, tuple) and x and x[0] == "call")
             okrows = rows(a0, "east") and rows(a1, "north") and not cols_wrong(a0, "force_east") and not cols_wrong(a1, "force_north")
             ok = True if okrows and s0 is not None and s1 is not None else (False if cols_wrong(a0, "force_east") or cols_wrong(a1, "force_north") else None)
             ctx.check("R4", qn + "|difference-arguments", True if (s0 in (1, -1) and s0 == s1) else (False if s0 is not None and s1 is not None else None),
